@@ -84,6 +84,19 @@ def r2(ctx):
         ok_sh = bool(sh_f) and dominated_in_family(ctx.w, b, bb, edges=sh_f)
         ctx.inst(R, k + ":not-after-shutdown", ok_sh, s["s"], "no Data segment once the write half is shut down" if ok_sh else
                  "Segment::Data can be sent although the write half is shut down: the bytes are sequenced behind the FIN, accepted and silently discarded by the peer")
+        # a Data segment always carries bytes: an empty one is indistinguishable from EOF for the reader (read() -> Ok(0))
+        ne = []
+        for fb in fam:
+            for sbb, te3, fe3, o in guards_on(fb, lambda o: o["k"] == "bin" and o["op"] in ("Eq", "Ne", "Gt", "Lt", "Le", "Ge") and
+                                              ((op_const(o["a"]) or {}).get("v") == 0 or (op_const(o["b"]) or {}).get("v") == 0)):
+                at = Slicer(ctx.w).atoms(fb, o["a"]) | Slicer(ctx.w).atoms(fb, o["b"])
+                if any(re.search(r"call:.*(Buf::remaining|::len|::remaining)$", a) for a in at) and any(a.startswith("arg:") for a in at):
+                    empty_is_true = o["op"] in ("Eq", "Le", "Lt") if (op_const(o["b"]) or {}).get("v") == 0 else o["op"] in ("Eq", "Ge", "Gt")
+                    ne += [(fb.id, e) for e in (fe3 if empty_is_true else te3)]
+        ok_ne = bool(ne) and dominated_in_family(ctx.w, b, bb, edges=ne)
+        ctx.inst(R, k + ":carries-bytes", ok_ne, s["s"], "a Data segment is only built for a non-empty buffer" if ok_ne else
+                 "Segment::Data can be built from an empty buffer: a zero-length write through this entry point takes a credit and a sequence number and the peer's "
+                 "read() returns Ok(0) - a false end-of-stream in the middle of the data")
         ctx.inst(R, k, ok, s["s"], "Data segment built behind a successful try_acquire" if ok else
                  "Segment::Data is constructed on a path that did not acquire a flow-control credit: the bounded receive queue can overflow and data is dropped")
     # writer without credit
